@@ -5,7 +5,8 @@ import ERP.Total
 `ERP/Gen/Arith.lean` is regenerated on every run from the statements of
 `AxisPosition.logicalToNative`, `.nativeToLogical`, `.setLogicalOffsetPosition`, `.setHomeOffset`,
 `ExcludeRegionState._exitCoordinate`, `RetractionState.combine`, `RetractionState._addCommands`
-(the numbers formatted into its two commands) and
+(the numbers formatted into its two commands), `ExcludeRegionState.exitExcludedRegion` (the commands
+appended after the pending ones) and
 `GcodeHandlers.computeArcCenterOffsets`, and of `GcodeHandlers.planArc` (everything before its loop, and
 the loop body) (assignments, augmented assignments, `if`/`else`, early
 `return`, conditional expressions, `and`/`or`/`^`, comparisons, `+ - * /`, `abs`, `math.sqrt`,
@@ -16,6 +17,7 @@ are represented by the flags `valueIsNone` / `absIsNone`; the calls the model ma
 `logicalToNative(v)`, `nativeToLogical()` and `nativeToLogical(v, True)`. -/
 namespace ERP
 set_option linter.unusedSectionVars false
+set_option linter.unusedSimpArgs false
 variable {α : Type} [Add α] [Sub α] [Mul α] [Div α] [Neg α] [LT α] [LE α] [BEq α]
   [OfNat α 0] [OfNat α 1] [OfNat α 2] [DecidableLT α] [DecidableLE α] [MathOps α]
 
@@ -82,6 +84,45 @@ theorem gen_addCommands (r : Retraction α) (dir : α) (p : Position α) (h : r.
   exact ⟨rfl, rfl⟩
 
 theorem addCommands_templates : Gen.addCommandsTemplates = ["G92 E{e}", "G1 F{f} E{e}"] := rfl
+
+/-- the command template and the numbers (in template order) of a synthesised command -/
+def Out.shape : Out α → Option (String × List α)
+  | .g92e e => some ("G92 E{e}", [e])
+  | .g0z f z => some ("G0 F{f} Z{z}", [f, z])
+  | .g0xy f x y => some ("G0 F{f} X{x} Y{y}", [f, x, y])
+  | .g1fe f e => some ("G1 F{f} E{e}", [f, e])
+  | _ => none
+
+/-- the re-synchronisation commands at the end of an episode, as the model emits them -/
+def exitTail (s : FState α) : List (Out α) :=
+  let f := s.feedRate / s.feedRateUnitMultiplier
+  let moveZ : Out α := .g0z f (T.exitCoord s.position.z (T.lastPos s).z)
+  [Out.g92e (T.n2l s.position.e)] ++
+    (if T.cur (T.lastPos s).z < T.cur s.position.z then [moveZ] else []) ++
+    [Out.g0xy f (T.exitCoord s.position.x (T.lastPos s).x) (T.exitCoord s.position.y (T.lastPos s).y)] ++
+    (if T.cur s.position.z < T.cur (T.lastPos s).z then [moveZ] else [])
+
+theorem exit_outputs (cfg : Config) (s : FState α) (h : s.excluding = true) :
+    (T.exitExcludedRegion cfg s).2 =
+      (FState.processPendingCommands cfg { s with excluding := false }).2 ++ exitTail s := by
+  unfold T.exitExcludedRegion exitTail
+  simp only [h, Bool.not_true, Bool.false_eq_true, if_false]
+  by_cases h1 : T.cur (T.lastPos s).z < T.cur s.position.z <;>
+  by_cases h2 : T.cur s.position.z < T.cur (T.lastPos s).z <;>
+  simp [FState.processPendingCommands, T.lastPos, h1, h2] <;> simp_all [T.lastPos]
+
+/-- `exitExcludedRegion`: after the pending commands and the exit script, exactly the commands the
+source appends — its templates, its numbers in its order, under its conditions -/
+theorem gen_exitCommands (s : FState α) :
+    (exitTail s).map Out.shape =
+      (Gen.exitCommands (T.n2l s.position.e)
+        (T.exitCoord s.position.z (T.lastPos s).z) (T.exitCoord s.position.x (T.lastPos s).x)
+        (T.exitCoord s.position.y (T.lastPos s).y) (T.cur s.position.z) (T.cur (T.lastPos s).z)
+        s.feedRate s.feedRateUnitMultiplier).map some := by
+  unfold exitTail Gen.exitCommands
+  by_cases h1 : T.cur (T.lastPos s).z < T.cur s.position.z <;>
+  by_cases h2 : T.cur s.position.z < T.cur (T.lastPos s).z <;>
+  simp [Out.shape, h1, h2, GT.gt]
 
 /-- `computeArcCenterOffsets(endX, endY, radius, clockwise)` -/
 theorem gen_arcCenterOffsets (p : Position α) (endX endY radius : α) (cw : Bool) :
